@@ -612,6 +612,23 @@ void XMLDateTime::parseDateTime()
 
     getTime();
     validateDateTime();
+
+    // 24:00:00 is the first instant of the following day
+    if (fValue[Hour] == 24)
+    {
+        fValue[Hour] = 0;
+        if (++fValue[Day] > maxDayInMonthFor(fValue[CentYear], fValue[Month]))
+        {
+            fValue[Day] = 1;
+            if (++fValue[Month] > 12)
+            {
+                fValue[Month] = 1;
+                if (++fValue[CentYear] == 0)
+                    fValue[CentYear] = 1;   // there is no year 0
+            }
+        }
+    }
+
     normalize();
     fHasTime = true;
 }
